@@ -274,7 +274,52 @@ def run_site(spec):
         ref = make_site(ref_cfg(cfg))
         check_generic(site, ref, cfg, tags)
         check_algebra(site, cfg, tags)
+        check_op_bookkeeping(cfg, tags)
     return {'nontrivial': True, 'classes': ['cls:' + cfg[0]]}
+
+
+def check_op_bookkeeping(cfg, tags):
+    """rename_op / add_op / remove_op keep the operator tables consistent: the renamed / added operators have the same matrices,
+    hermitian conjugates and Jordan-Wigner flags (all generic clauses are re-run on the modified site)"""
+    site, ref = make_site(cfg), make_site(ref_cfg(cfg))
+    names = sorted(n_ for n_ in site.opnames if n_ not in ('Id', 'JW'))
+    before = {n_: (d(site, n_).copy(), site.op_needs_JW(n_), site.hc_ops.get(n_)) for n_ in names}
+    renamed = {}
+    for k, n_ in enumerate(names):
+        if k % 2 == 0:
+            renamed[n_] = n_ + '_r'
+    for old, new in renamed.items():
+        site.rename_op(old, new)
+        ref.rename_op(old, new)
+    t = dict(tags, method='rename_op')
+    for old, (mat, jw, hc) in before.items():
+        new = renamed.get(old, old)
+        require(new in site.opnames and (old == new or old not in site.opnames), 'rename_op-opnames', '%s -> %s' % (old, new), **t)
+        require(close(d(site, new), mat), 'rename_op-matrix', '%s -> %s' % (old, new), **t)
+        require(site.op_needs_JW(new) == jw, 'rename_op-need_JW', '%s -> %s: need_JW %r before, %r after' % (old, new, jw, site.op_needs_JW(new)), **t)
+        if hc is not None:
+            require(site.hc_ops.get(new) == renamed.get(hc, hc), 'rename_op-hc_ops', '%s -> %s: hc %r, expected %r' % (old, new, site.hc_ops.get(new), renamed.get(hc, hc)), **t)
+    check_generic(site, ref, cfg, t)
+    # add_op: the product of two operators under a new name (with its Jordan-Wigner flag and hermitian conjugate), then remove it again
+    cur = sorted(n_ for n_ in site.opnames if not n_.startswith('JW') and n_ != 'Id')
+    t = dict(tags, method='add_op')
+    if len(cur) >= 2:
+        a, b = cur[0], cur[-1]
+        jw = (site.op_needs_JW(a) + site.op_needs_JW(b)) % 2 == 1
+        for s_ in (site, ref):
+            s_.add_op('AB_new', s_.get_op(a + ' ' + b), need_JW=jw, hc='BA_new')
+            s_.add_op('BA_new', s_.get_op(s_.get_hc_op_name(a + ' ' + b)), need_JW=jw, hc='AB_new')
+        require(close(d(site, 'AB_new'), d(site, a) @ d(site, b)), 'add_op-matrix', '%s %s' % (a, b), **t)
+        require(site.op_needs_JW('AB_new') == jw and site.hc_ops.get('AB_new') == 'BA_new' and site.hc_ops.get('BA_new') == 'AB_new', 'add_op-tables', '', **t)
+        check_generic(site, ref, cfg, t)
+        t = dict(tags, method='remove_op')
+        for s_ in (site, ref):
+            s_.remove_op('AB_new')
+        require('AB_new' not in site.opnames and 'AB_new' not in site.need_JW_string and 'AB_new' not in site.hc_ops and 'BA_new' not in site.hc_ops
+                and not hasattr(site, 'AB_new'), 'remove_op-tables', '', **t)
+        for s_ in (site, ref):
+            s_.remove_op('BA_new')
+        check_generic(site, ref, cfg, t)
 
 
 # ------------------------------------------------------------------------------------------------
